@@ -8,6 +8,8 @@ Every case is ONE decision problem written down three ways and evaluated by the 
       with the library's own public selection API (dm[[criteria]], dm.loc[...], dm.iloc[...], dm.loc[alts, crits], chained
       in either order; a renaming is then applied with dm.copy(alternatives=..., criteria=...));
   P3  P1 with every weight multiplied by c > 0 (methods homogeneous in the weights: all but ELECTRE).
+In a fixed share of the cases ONE pipeline object (or one set of transformer objects and one decision maker, chained by hand)
+evaluates all three presentations one after the other, in varying order; elsewhere every evaluation gets fresh objects.
 The results are compared BY LABEL (property oracle).  For kernel-only cases the Lean model (`agg`) is
 evaluated on the three presentations too: it must agree with itself exactly at Rat and with the
 implementation within tolerance (correspondence)."""
@@ -35,7 +37,11 @@ RULE = (
     "and in one third derived from the DecisionMatrix object of the first one with the public selection API: dm[[criteria in the "
     "new order]], dm.loc[alternatives in the new order], dm.loc[:, criteria], dm.iloc[rows], dm.iloc[:, cols], the two-axis forms "
     "dm.loc[alts, crits] / dm.iloc[rows, cols] and chains of a row and a column selection in either order (renaming, if any, by "
-    "dm.copy(alternatives=, criteria=)). Both presentations run on the real code and are compared by label: scores within 1e-9*scale, ranks only "
+    "dm.copy(alternatives=, criteria=)). Every evaluation gets fresh transformer / pipeline / method objects, except in a fixed share "
+    "of every run (90 pipeline cases, 70% of them with at least one scaler, and 30 kernel-only cases in the quick tier) where ONE "
+    "pipeline object - or one set of transformer objects and one decision maker chained by hand - evaluates all the presentations "
+    "one after the other (order of the presentations varied; something is always re-listed), so that anything an object keeps "
+    "from the first problem it saw shows as a difference between presentations. Both presentations run on the real code and are compared by label: scores within 1e-9*scale, ranks only "
     "through the pairwise relation on pairs whose first-presentation scores differ by more than 2e-9*scale, ELECTRE1 kernel exactly "
     "when no concordance / discordance value is within the margin of a threshold. Non-trivial: the second presentation differs "
     "from the first (non-identity permutation or renaming) or c != 1."
@@ -140,7 +146,8 @@ def _method_ok(st, name):
     return True
 
 
-def gen_steps(rng, name, st0):
+def gen_steps(rng, name, st0, need_scaler=False):
+    """`need_scaler`: keep only pipelines that hold at least one scaler (any of the five, any target)"""
     for _ in range(200):
         st, steps = dict(st0), []
         for _ in range(rng.randint(1, 4)):
@@ -164,7 +171,7 @@ def gen_steps(rng, name, st0):
                 step["with_std"] = True
             steps.append(step)
             st = nst
-        if steps and _method_ok(st, name):
+        if steps and _method_ok(st, name) and (not need_scaler or any(s["t"] in SCALERS for s in steps)):
             return steps
     if st0["msign"] == "pos":
         return [{"t": "InvertMinimize"}, {"t": "SumScaler", "target": "both"}]  # valid for positive data and weights, any method
@@ -351,7 +358,12 @@ SELECTIONS = ["getitem", "getitem", "getitem>loc", "loc>getitem", "getitem>iloc"
               "loc>loccols", "loccols>loc", "iloc>iloccols", "iloccols>iloc", "loccols>iloc", "iloccols>loc"]
 
 
-def make_case(rng, kind, max_m=11, force=None):
+# in which order ONE transformer / pipeline / decision-maker object is handed the writings of the problem
+EVAL_ORDERS = [["p1", "p2", "p3"], ["p1", "p2", "p3"], ["p1", "p3", "p2"], ["p2", "p1", "p3"], ["p3", "p2", "p1"]]
+
+
+def make_case(rng, kind, max_m=11, force=None, share=False):
+    """`share`: all the writings of the problem are evaluated one after the other by the SAME objects (see observe)"""
     spec = {"name": "MultiMOORA"} if force == "MultiMOORA-ties" else {"name": "ELECTRE2"} if force == "ELECTRE2-chain" else M.random_spec(rng, KERNEL_NAMES)
     name = spec["name"]
     if kind == "kernel":
@@ -395,7 +407,7 @@ def make_case(rng, kind, max_m=11, force=None):
             A[-1] = [v + 1 for v in A[-1]]
         st0 = {"msign": "pos" if positive else "mixed", "wsign": "pos", "wequal": False,
                "allmax": all(o == 1 for o in dm["objectives"])}
-        steps = gen_steps(rng, name, st0)
+        steps = gen_steps(rng, name, st0, need_scaler=share and rng.random() < 0.7)
         weighter = any(s["t"] in ("StdWeighter", "EntropyWeighter", "CRITIC") for s in steps)
         if weighter:
             while len(dm["matrix"]) < 3:  # a weighter needs at least three alternatives
@@ -423,11 +435,20 @@ def make_case(rng, kind, max_m=11, force=None):
         m += 1
     if name in ("ELECTRE1", "ELECTRE2") and kind == "kernel":
         _norm_weights(dm)
-    mode = rng.choice(["all", "all", "all", "rows", "cols", "names"]) if force is None else rng.choice(["all", "rows"])
+    if share:  # something is always re-listed (a renaming alone moves no number)
+        mode = rng.choice(["all", "all", "cols", "rows"])
+    else:
+        mode = rng.choice(["all", "all", "all", "rows", "cols", "names"]) if force is None else rng.choice(["all", "rows"])
     ckind, c = _multiplier(rng)
     # how the second presentation comes into being: rebuilt from scratch, or selected out of the first DecisionMatrix
     via = rng.choice(SELECTIONS) if rng.random() < 1 / 3 else "mkdm"
+    shared = {}
+    if share:
+        # who is the one object: the pipeline (pipe.evaluate on every writing), or the transformers and the method chained by
+        # hand (tr.transform ... dec.evaluate on every writing); a kernel-only case has just the decision maker
+        shared = {"share": (rng.choice(["pipeline", "pipeline", "steps"]) if steps else "method"), "order": list(rng.choice(EVAL_ORDERS))}
     return {
+        **shared,
         "kind": kind, "spec": spec, "steps": steps, "dm": dm, "mode": mode, "via": via,
         "sigma": _perm(rng, m, identity=mode in ("cols", "names")),
         "tau": _perm(rng, n, identity=mode in ("rows", "names")),
@@ -450,6 +471,14 @@ def gen(ctx):
     # … and ELECTRE2 on problems whose distillations run for many rounds, alternatives re-listed
     for _ in range(ctx.n(30, 300)):
         cases.append(make_case(rng, "kernel", max_m=9, force="ELECTRE2-chain"))
+    # … and ONE object for all the writings: the same pipeline (or the same transformer objects and the same decision maker,
+    # chained by hand) evaluates the problem as given, re-listed and with scaled weights one after the other, in varying order.
+    # Whatever an object keeps from the first problem it was handed (a fitted scaler, cached statistics, weights) then shows
+    # as a difference between the presentations.  Everywhere above every evaluation gets fresh objects.
+    for _ in range(ctx.n(90, 1500)):
+        cases.append(make_case(rng, "pipeline", share=True))
+    for _ in range(ctx.n(30, 400)):
+        cases.append(make_case(rng, "kernel", share=True))
     return cases
 
 
@@ -509,17 +538,43 @@ EXTRAS = {
 }
 
 
-def _run(dmdict, case, record, build=None):
-    """`build`: a callable returning the DecisionMatrix to evaluate (default: made from scratch out of `dmdict`)"""
+def _objects(case):
+    """the objects that evaluate a presentation: (decision maker, transformers, pipeline or None)"""
+    from skcriteria.pipeline import mkpipe
+
+    dec = M.build(case["spec"])
+    trs = [build_step(s) for s in case["steps"]]
+    return dec, trs, (mkpipe(*trs, dec) if trs else None)
+
+
+def _run(dmdict, case, record, build=None, objs=None):
+    """`build`: a callable returning the DecisionMatrix to evaluate (default: made from scratch out of `dmdict`).
+    `objs`: the (decision maker, transformers, pipeline) to evaluate with -- objects that may already have evaluated other
+    writings of the problem (default: fresh ones).  The conditioning of the steps and the data that reaches the method are
+    then measured with separate fresh transformers, so that the shared objects see the evaluations and nothing else."""
     from skcriteria.pipeline import mkpipe
 
     spec, steps = case["spec"], case["steps"]
     out = {"amp": 1.0}
     try:
         dm = G.mkdm(dmdict) if build is None else build()
-        dec = M.build(spec)
         final = dm
-        if steps:
+        if objs is not None:
+            dec, trs, pipe = objs
+            amp = 1.0
+            for s in steps:
+                amp *= amplification(s, final)
+                out["amp"] = amp if math.isfinite(amp) else "inf"
+                final = build_step(s).transform(final)
+            if case.get("share") == "steps":
+                x = dm
+                for tr in trs:
+                    x = tr.transform(x)
+                res = dec.evaluate(x)
+            else:
+                res = (pipe if pipe is not None else dec).evaluate(dm)
+        elif steps:
+            dec = M.build(spec)
             trs = [build_step(s) for s in steps]
             pipe = mkpipe(*trs, dec)
             amp = 1.0
@@ -529,7 +584,7 @@ def _run(dmdict, case, record, build=None):
                 final = tr.transform(final)
             res = pipe.evaluate(dm)
         else:
-            res = dec.evaluate(dm)
+            res = M.build(spec).evaluate(dm)
         if record:
             out["final"] = {"matrix": final.matrix.to_numpy(dtype=float).tolist(), "weights": final.weights.to_numpy(dtype=float).tolist(),
                             "objectives": [int(x) for x in final.iobjectives.to_numpy()]}
@@ -551,8 +606,38 @@ def _run(dmdict, case, record, build=None):
     return out
 
 
+def _observe_shared(case):
+    """one set of objects for all the writings of the problem, handed to them in the order case["order"]"""
+    try:
+        objs = _objects(case)
+    except Exception as e:  # the configuration itself is refused: the same outcome for every writing
+        err = {"err": G.err_name(e), "msg": str(e)[:200], "amp": 1.0}
+        return {k: dict(err) for k in (["p1", "p2", "p3"] if case["spec"]["name"] in HOMOGENEOUS else ["p1", "p2"])}
+    first = {}
+
+    def dm1():
+        if "dm" not in first:
+            first["dm"] = G.mkdm(case["dm"])
+        return first["dm"]
+
+    o = {}
+    for k in case["order"]:
+        if k == "p1":
+            o[k] = _run(None, case, True, build=dm1, objs=objs)
+        elif k == "p2":
+            if case.get("via", "mkdm") != "mkdm":
+                o[k] = _run(None, case, True, build=lambda: select2(dm1(), case), objs=objs)
+            else:
+                o[k] = _run(presentation2(case), case, True, objs=objs)
+        elif case["spec"]["name"] in HOMOGENEOUS:
+            o[k] = _run(presentation3(case), case, True, objs=objs)
+    return o
+
+
 def observe(case):
     with M.quiet():
+        if case.get("share"):
+            return _observe_shared(case)
         first = {}
 
         def build1():
@@ -975,6 +1060,11 @@ def tags(case, obs):
          "c:" + case["c_kind"], "via:" + case.get("via", "mkdm")]
     if case.get("via", "mkdm") != "mkdm":
         t.append("via:selection-api")
+    t.append("objects:" + ("shared:" + case["share"] if case.get("share") else "fresh"))
+    if case.get("share"):
+        t.append("shared-order:" + ">".join(case["order"]))
+        if any(s["t"] in SCALERS for s in case["steps"]):
+            t.append("shared:with-scaler")
     if name == "TOPSIS":
         t.append("metric:" + case["spec"].get("metric", "euclidean"))
     for s in case["steps"]:
